@@ -267,19 +267,43 @@ func c10One(c *h.Ctx, id string, r *rand.Rand, cfg c10Cfg, msgs []*c10Msg) {
 	c.Eval(1)
 	rts := fwenv.InstallRecThreads(2)
 	fwfw.Threads = make([]*fwfw.Thread, 2)
+	lateOptions, cfgOrder := r.Intn(4) == 0, r.Intn(3)
+	if lateOptions {
+		c.Count("link_services_reconfigured_after_creation", 1)
+	}
 	mkLS := func(fid uint64) (*face.NDNLPLinkService, *face.VerifTransport) {
 		tr := face.NewVerifTransport(defn.NonLocal, defn.PointToPoint, cfg.mtu)
 		o := face.MakeNDNLPLinkServiceOptions()
 		o.IsFragmentationEnabled = cfg.frag
 		o.IsReassemblyEnabled = true
 		o.IsIncomingFaceIndicationEnabled = cfg.inFaceInd
-		ls := face.MakeNDNLPLinkService(tr, o)
+		var ls *face.NDNLPLinkService
+		if lateOptions {
+			// the face is created with other settings and reconfigured afterwards, as faces/update
+			// does (Options, change, SetOptions): the result must behave like a face built that way
+			first := o
+			switch cfgOrder {
+			case 0:
+				first.IsIncomingFaceIndicationEnabled = !o.IsIncomingFaceIndicationEnabled
+			case 1:
+				first.IsFragmentationEnabled = !o.IsFragmentationEnabled
+			default:
+				first.IsIncomingFaceIndicationEnabled = !o.IsIncomingFaceIndicationEnabled
+				first.IsFragmentationEnabled = !o.IsFragmentationEnabled
+			}
+			ls = face.MakeNDNLPLinkService(tr, first)
+			cur := ls.Options()
+			cur.IsFragmentationEnabled, cur.IsIncomingFaceIndicationEnabled, cur.IsReassemblyEnabled = o.IsFragmentationEnabled, o.IsIncomingFaceIndicationEnabled, o.IsReassemblyEnabled
+			ls.SetOptions(cur)
+		} else {
+			ls = face.MakeNDNLPLinkService(tr, o)
+		}
 		ls.SetFaceID(fid)
 		return ls, tr
 	}
 	sender, stx := mkLS(401)
 	receiver, _ := mkLS(402)
-	det := map[string]any{"mtu": cfg.mtu, "fragmentation": cfg.frag, "incoming_face_indication": cfg.inFaceInd}
+	det := map[string]any{"mtu": cfg.mtu, "fragmentation": cfg.frag, "incoming_face_indication": cfg.inFaceInd, "options_set_after_creation": lateOptions}
 	var mdesc []map[string]any
 	type sent struct {
 		frames [][]byte
